@@ -208,7 +208,7 @@ Section WithFam.
       destruct (c_lazy (cls F c) && ap && (negb d5 || match d with None => true | Some _ => false end)).
       + eapply INST; eauto.
       + destruct (unresolved F st c).
-        * destruct ap; [eapply INST; eauto|]. inversion B; subst; exact W.
+        * destruct (ap && c_apc (cls F c)); [eapply INST; eauto|]. inversion B; subst; exact W.
         * destruct (deps_with (fun st c' m' => build F d5 n st true c' m' None) (match d with None => true | Some _ => false end) c m (c_fields (cls F c)) st)
             as [s1 [e|]] eqn:D.
           -- inversion B; subst. eapply deps_with_wf; [|exact W|exact D].
@@ -377,7 +377,7 @@ Section WithFam.
       destruct (c_lazy (cls F c) && ap && (negb d5 || match d with None => true | Some _ => false end)).
       + now apply STUB.
       + destruct (unresolved F st c).
-        * destruct ap; [now apply STUB|]. inversion B; subst. split; [now split|]. split; [apply mono_refl|discriminate].
+        * destruct (ap && c_apc (cls F c)); [now apply STUB|]. inversion B; subst. split; [now split|]. split; [apply mono_refl|discriminate].
         * set (sk := match d with None => true | Some _ => false end) in *.
           destruct (deps_with (fun st c' m' => build F d5 n st true c' m' None) sk c m (c_fields (cls F c)) st)
             as [s1 r1] eqn:D.
@@ -839,7 +839,7 @@ Section Termination.
       + split; [eapply install_bound; eauto|]. intros N _. eapply install_ncs; eauto. left.
         destruct d; [|reflexivity]. rewrite andb_false_r in L. discriminate.
       + destruct (unresolved F st c) eqn:U.
-        * destruct ap.
+        * destruct (ap && c_apc (cls F c)).
           -- split; [eapply install_bound; eauto|]. intros _ R. rewrite R in U. discriminate.
           -- inversion B; subst. split; auto.
         * destruct (deps_with (fun st c' m' => build F true n st true c' m' None) (match d with None => true | Some _ => false end) c m (c_fields (cls F c)) st)
@@ -975,7 +975,7 @@ Section NoCacheError.
       destruct (c_lazy (cls F c) && ap && (negb d5 || match d with None => true | Some _ => false end)).
       + eapply INST; eauto.
       + destruct (unresolved F st c).
-        * destruct ap; [eapply INST; eauto|]. inversion B; discriminate.
+        * destruct (ap && c_apc (cls F c)); [eapply INST; eauto|]. inversion B; discriminate.
         * destruct (deps_with (fun st c' m' => build F d5 n st true c' m' None) (match d with None => true | Some _ => false end) c m (c_fields (cls F c)) st)
             as [s1 [e1|]] eqn:D.
           -- inversion B; subst. eapply deps_with_no_attr; [|exact D].
@@ -992,7 +992,7 @@ Section NoCacheError.
     { intros s x s' I. destruct (install_some_dsup F s c m dd x s' None DS I) as [_ L]. congruence. }
     destruct (c_lazy (cls F c) && ap && (negb d5 || false)); [eapply INST; eauto|].
     destruct (unresolved F st c).
-    - destruct ap; [eapply INST; eauto|discriminate].
+    - destruct (ap && c_apc (cls F c)); [eapply INST; eauto|discriminate].
     - destruct (deps_with _ _ c m (c_fields (cls F c)) st) as [s1 [e1|]]; [discriminate|]. eapply INST; eauto.
   Qed.
 
